@@ -147,6 +147,9 @@ func ReleaseMsg(m *Msg) {
 	if verifObjRelease(m) {
 		return
 	}
+	if verifObjEnabled() {
+		defer verifObjAfterRelease(m)
+	}
 	m.Header = Header{}
 
 	for _, q := range m.Questions {
@@ -164,9 +167,6 @@ func ReleaseMsg(m *Msg) {
 	m.Answers = m.Answers[:0]
 	m.Authorities = m.Authorities[:0]
 	m.Additionals = m.Additionals[:0]
-	if verifObjQuarantine(m) {
-		return
-	}
 	msgPool.Put(m)
 }
 
